@@ -70,7 +70,10 @@ def make_line(mode, cap, align, ops, opts=0, for_model=False):
     for o in ops:
         if o[0] == 'B' and for_model and o[1] == 'S':
             o = ('B', 'U') + tuple(o[2:])
-        if o[0] == 'D':
+        if o[0] == 'K':
+            if not for_model:
+                toks.append('K%d' % o[1])
+        elif o[0] == 'D':
             toks.append('D' + bytes(o[1]).hex())
         elif o[0] == 'R':
             toks.append('R')
@@ -87,6 +90,8 @@ def spec_line(mode, cap, align, ops):
 
 
 def parse_cbs(s):
+    if s == '~':
+        return None          # no callback registered for this call
     if s == '-':
         return []
     out = []
@@ -115,7 +120,14 @@ def parse_out(line):
 def public(seg, with_count=True):
     if seg['kind'] != 'D':
         return (seg['kind'],)
-    return ('D', seg['ret'], tuple(seg['cbs']), seg['decoded'] if with_count else 0)
+    return ('D', seg['ret'], tuple(seg['cbs']) if seg['cbs'] is not None else None, seg['decoded'] if with_count else 0)
+
+
+def blind(seg, other):
+    """when no callback was registered on the implementation side, the expected callbacks are not observable"""
+    if other['kind'] == 'D' and other.get('cbs') is None and seg['kind'] == 'D':
+        return dict(seg, cbs=None)
+    return seg
 
 
 def classify(isegs, ssegs, with_count=True):
@@ -125,10 +137,15 @@ def classify(isegs, ssegs, with_count=True):
             return k, 'sanitizer-report'
         if a['kind'] == 'D' and a.get('flag') == 'INMOD':
             return k, 'caller-data-modified'
+        if a['kind'] == 'D' and a.get('flag') == 'CBDIFF':
+            return k, 'registered-callbacks-not-all-invoked-identically'
+        b = blind(b, a)
         if a['kind'] != 'D':
             continue
         if public(a, with_count) == public(b, with_count):
             continue
+        if a['cbs'] is None:
+            return k, 'wrong-return-value' if a['ret'] != b['ret'] else 'wrong-decoded-count'
         ia = [(n, h) for n, h, _ in a['cbs']]; sb = [(n, h) for n, h, _ in b['cbs']]
         if ia == sb:
             if any(pm & 16 for _, _, pm in a['cbs']):
@@ -198,7 +215,10 @@ def case_ops(case):
     setbufs = {}
     for k, v in case.get('setbufs', []):
         setbufs.setdefault(k, []).append(v)
+    regs = dict(case.get('regs', []))
     for i in range(len(bounds) - 1):
+        if i in regs:
+            ops.append(('K', regs[i]))
         if i in resets:
             ops.append(('R',))
         for v in setbufs.get(i, []):
